@@ -485,7 +485,7 @@ def cases(draw, which):
         "thr": thr,
         "left": draw(st.sampled_from(["squared", "absolute"])),
         "right": draw(st.sampled_from(["squared", "absolute"])),
-        "rlf": draw(st.sampled_from(["mean_absolute_error", "mean_squared_error"])),
+        "rlf": draw(st.sampled_from(["mean_absolute_error", "mean_squared_error", "mean_asymmetric_error", "mean_asymmetric_error"])),
         "mo_weights": [draw(st.sampled_from([0.2, 1.0, 3.0])) for _ in range(3)],
         "scale": draw(st.sampled_from([0.5, 2.0, 3.0, 10.0, 0.125])),
     }
